@@ -16,6 +16,15 @@ from pyvc.sorts import SV, REF, REAL, STR, INT, Ty, PyObj, MAP
 from pyvc.engine import mk_bool
 
 
+def uid(eng, u):
+    """integer id of a unit string (strings in maps are keyed by ids); a string that is literally sof(i) has id i"""
+    t = z3.simplify(eng.coerce(u, STR)[0].t)
+    probe = S.sof(z3.IntVal(0)).decl().name()
+    if z3.is_app(t) and t.num_args() == 1 and t.decl().name() == probe:
+        return t.arg(0)
+    return S.sid(t)
+
+
 def load(reg):
     C17, C16 = ["C17"], ["C16"]
     reg.declare_fields("Quantity", g_si="real", _unit="str", ghost=("g_si",))
@@ -50,7 +59,9 @@ def load(reg):
     def type_of_value(eng, v):
         if v.ty.kind == "obj":
             o = v.t
-            code = z3.If(PyObj.is_O_ref(o), S.typeof(PyObj.rval(o)),
+            tr = S.typeof(PyObj.rval(o))
+            # class ids are positive; the builtin kinds have negative codes (an uninterpreted typeof must not collide with them)
+            code = z3.If(PyObj.is_O_ref(o), z3.If(tr >= 1, tr, 0),
                          z3.If(PyObj.is_O_int(o), -1, z3.If(PyObj.is_O_bool(o), -2, z3.If(PyObj.is_O_float(o), -3,
                                z3.If(PyObj.is_O_str(o), -4, z3.If(PyObj.is_O_none(o), -5, -6))))))
             return SV(Ty("type"), code)
@@ -84,7 +95,7 @@ def load(reg):
 
     SAME = "isref(other) and sametype(other, self)"
     NEW = ["sametype(result, self)", "result._unit == self._unit", "isfresh(result)"]
-    G = dict(generic_receiver=True, for_classes=["Quantity"], modifies=[], axiom_sets=("seqstr",))
+    G = dict(generic_receiver=True, for_classes=["Quantity"], modifies=[], axiom_sets=())
     reg.contract("Quantity._val", params={"si": "real"}, returns="ref:Quantity", raises=[],
                  ensures=NEW + ["result.g_si == si"], props=C17, **G)
     reg.contract("Quantity.__add__", params={"other": "obj"}, returns="ref:Quantity",
@@ -113,7 +124,7 @@ def load(reg):
     reg.contract("Quantity.si", params={}, returns="real", raises=[], pure=True, ensures=["result == self.g_si"], props=C17, **G)
     reg.contract("Quantity.unit", params={}, inline=True)
 
-    reg.specfun("has_unit", lambda eng, x, u: mk_bool(z3.Contains(KEYS(S.typeof(x.t)), z3.Unit(S.sid(eng.coerce(u, STR)[0].t)))))
+    reg.specfun("has_unit", lambda eng, x, u: mk_bool(z3.Contains(KEYS(S.typeof(x.t)), z3.Unit(uid(eng, u)))))
 
 
 _load_q0 = load
@@ -122,7 +133,7 @@ _load_q0 = load
 def load(reg):      # noqa: F811
     _load_q0(reg)
     C16, C17 = ["C16"], ["C17"]
-    G = dict(generic_receiver=True, for_classes=["Quantity"], modifies=[], axiom_sets=("seqstr",))
+    G = dict(generic_receiver=True, for_classes=["Quantity"], modifies=[], axiom_sets=())
     NEW = ["sametype(result, self)", "result._unit == self._unit", "isfresh(result)"]
     # scaling by a plain number (the first branch of * and /); products and quotients of two quantities go through the
     # class-object keyed conversion tables and stay with the table invariants + BOUNDED sweeps of C16
@@ -189,9 +200,7 @@ def load(reg):      # noqa: F811
         if len(args) != 2 or kwargs:
             raise Unsupported("construction through a class object with %d arguments" % len(args))
         val = eng.coerce(args[0], REAL)[0].t
-        ut = _z3.simplify(eng.coerce(args[1], STR)[0].t)
-        # a unit given as sof(id) (e.g. cls._baseunit) is that id: avoids the sid/sof bijection axiom
-        unit = ut.arg(0) if (_z3.is_app(ut) and ut.num_args() == 1 and ut.decl().name() == S.sof(_z3.IntVal(0)).decl().name()) else S.sid(ut)
+        unit = uid(eng, args[1])
         tid = tv.t
         isq = _z3.Or(*[tid == i for i in qids(eng)])
         s.assume(_z3.Implies(isq, _z3.And(_z3.Contains(KEYS(tid), _z3.Unit(BASE(tid))), _z3.Select(FACT(tid), BASE(tid)) == 1)))
@@ -255,8 +264,8 @@ def load(reg):      # noqa: F811
     reg.specfun("super_new", super_new)
     reg.trust("float.__new__(cls, x) returns a new object of class cls whose float value is x (builtin; assumed)")
 
-    reg.specfun("t_has_unit", lambda eng, tv, u: mk_bool(_z3.Contains(KEYS(tv.t), _z3.Unit(S.sid(eng.coerce(u, STR)[0].t)))))
-    reg.specfun("t_factor", lambda eng, tv, u: SV(REAL, _z3.Select(FACT(tv.t), S.sid(eng.coerce(u, STR)[0].t))))
+    reg.specfun("t_has_unit", lambda eng, tv, u: mk_bool(_z3.Contains(KEYS(tv.t), _z3.Unit(uid(eng, u)))))
+    reg.specfun("t_factor", lambda eng, tv, u: SV(REAL, _z3.Select(FACT(tv.t), uid(eng, u))))
     reg.specfun("t_base_factor", lambda eng, tv: SV(REAL, _z3.Select(FACT(tv.t), BASE(tv.t))))
     reg.specfun("t_baseunit", lambda eng, tv: SV(STR, S.sof(BASE(tv.t))))
     EXACT = "(typeis_builtin(value, 'float') or typeis_builtin(value, 'int'))"
@@ -268,12 +277,13 @@ def load(reg):      # noqa: F811
                           # the SI value is the value times the factor of the unit (of the base unit when none is given)
                           "implies(isnone(unit), result.g_si == val(num(value)) * t_base_factor(cls))",
                           "implies(not isnone(unit), result.g_si == val(num(value)) * t_factor(cls, %s))" % UNIT],
+                 # (the look-up cls._units[cls._baseunit] goes through the string-id encoding: needs sid(sof(i)) = i)
                  modifies=[], for_classes=["Quantity"], props=C17, axiom_sets=("seqstr",))
     reg.contract("Quantity.__init__", params={"value": "obj", "unit": "obj"},
                  requires=["isnone(unit) or isstr(unit)"], raises=[],
                  ensures=["implies(isnone(unit), self._unit == t_baseunit(class_of(self)))",
                           "implies(not isnone(unit), self._unit == %s)" % UNIT],
-                 modifies=["self._unit"], generic_receiver=True, for_classes=["Quantity"], props=C17, axiom_sets=("seqstr",))
+                 modifies=["self._unit"], generic_receiver=True, for_classes=["Quantity"], props=C17, axiom_sets=())
 
     # construction = __new__ then __init__, both by contract (replaces the assumed construction hooks above)
     def construct(eng, s, tv, value, unit):
@@ -320,18 +330,18 @@ def load(reg):      # noqa: F811
     C17 = ["C17"]
     KEYS = reg.ufun("unit_keys", _z3.IntSort(), _z3.SeqSort(_z3.IntSort()))
     FACT = reg.ufun("unit_factors", _z3.IntSort(), _z3.ArraySort(_z3.IntSort(), _z3.RealSort()))
-    reg.specfun("factor_of", lambda eng, x, u: SV(REAL, _z3.Select(FACT(S.typeof(x.t)), S.sid(eng.coerce(u, STR)[0].t))))
+    reg.specfun("factor_of", lambda eng, x, u: SV(REAL, _z3.Select(FACT(S.typeof(x.t)), uid(eng, u))))
     # object invariant of a quantity: its display unit is a declared unit of its class with a non-zero factor (established by
     # __new__/__init__/as_unit/_val; "every factor is a finite non-zero number" is a UInv ground obligation)
     QWF = "has_unit(self, self._unit) and factor_of(self, self._unit) != 0"
     reg.contract("Quantity.displayvalue", params={}, returns="real", requires=[QWF], raises=[], pure=True,
                  ensures=["result * factor_of(self, self._unit) == self.g_si"],
-                 generic_receiver=True, for_classes=["Quantity"], modifies=[], props=C17, axiom_sets=("seqstr",))
+                 generic_receiver=True, for_classes=["Quantity"], modifies=[], props=C17, axiom_sets=())
     tvc = reg.specfuns["type_value_call"]
     for cname in [c for c in reg.table.subclasses("Quantity") if c != "Quantity"]:
         reg.specfun("construct_" + cname,
                     (lambda cn: lambda eng, st, args, kwargs: tvc(eng, st, SV(Ty("type"), _z3.IntVal(eng.class_id(cn))), list(args), kwargs))(cname))
-    reg.specfun("unit_declared", lambda eng, x, u: mk_bool(_z3.Contains(KEYS(S.typeof(x.t)), _z3.Unit(S.sid(eng.coerce(u, STR)[0].t)))))
+    reg.specfun("unit_declared", lambda eng, x, u: mk_bool(_z3.Contains(KEYS(S.typeof(x.t)), _z3.Unit(uid(eng, u)))))
     # constructing stores value * factor, reports the original value (over the reals) and the chosen unit; re-expressing keeps the
     # SI value and reports value * f(u) / f(u2); comparisons of re-expressed quantities are those of the originals
     reg.lemma("quantity_construct_display_reexpress", """
@@ -351,4 +361,168 @@ def rt(v, w, u, u2, probe):
     assert a == b, "ordering does not depend on the display unit"
     s = x + z
     assert s.g_si == x.g_si + z.g_si and s._unit == u, "a sum keeps the left operand's unit"
-""", params={"v": "obj", "w": "obj", "u": "str", "u2": "str", "probe": "ref:Quantity"}, props=C17, axiom_sets=("seqstr",))
+""", params={"v": "obj", "w": "obj", "u": "str", "u2": "str", "probe": "ref:Quantity"}, props=C17, axiom_sets=())
+
+
+_load_q3 = load
+
+
+def load(reg):      # noqa: F811
+    """Generic SI values: SI construction, products / quotients of SI values and quantities (signature arithmetic), asSI, as_quantity,
+    and the fall-back branches of Quantity.__mul__/__truediv__ for class pairs without a table entry."""
+    _load_q3(reg)
+    import z3 as _z3
+    from pyvc.engine import mk_none, Unsupported
+    from pyvc.sorts import SEQ, INT as _INT
+    C16 = ["C16"]
+    AXS = ()
+    reg.declare_fields("SI", g_si="real", _sisig="seq[int]", _unit="str", ghost=("g_si",))
+    SIGT = SEQ(_INT)
+    CSIG = reg.ufun("class_sig", _z3.IntSort(), _z3.SeqSort(_z3.IntSort()))
+    PARSE = reg.ufun("parse_sig", _z3.StringSort(), _z3.SeqSort(_z3.IntSort()))
+
+    def qids(eng):
+        return [eng.class_id(c) for c in eng.table.subclasses("Quantity") if c != "Quantity"]
+
+    def sig_fact(eng, st, tid):
+        # data invariant (TInv: every class's sisig() is its _sidict over the nine SI units)
+        st.assume(_z3.Implies(_z3.Or(*[tid == i for i in qids(eng)]), _z3.Length(CSIG(tid)) == 9))
+
+    def class_sig_of(eng, st, tid):
+        if st is not None and not eng.spec:
+            sig_fact(eng, st, tid)
+        return SV(SIGT, CSIG(tid), const="fresh")
+    # Quantity.sisig (a classmethod reading the class table): its value is the class's signature -- by hook, for instances and
+    # for class objects; the function body itself is covered by the TInv ground obligation on the live classes
+    reg.specfun("dep_Quantity_sisig", lambda eng, s, recv, args, kwargs: [(s, class_sig_of(eng, s, S.typeof(recv.t)))])
+    reg.specfun("typemethod_sisig", lambda eng, s, tv, args, kwargs: [(s, class_sig_of(eng, s, tv.t))])
+    reg.trust("Quantity.sisig() (classmethod over _sidict) denotes the class signature, a list of nine exponents: the TInv ground "
+              "obligations check sisig() against _sidict on every live class")
+    reg.specfun("class_sig", lambda eng, tv: SV(SIGT, CSIG(tv.t)))
+    _unused = (lambda eng, x: SV(SIGT, _z3.If(S.typeof(_ref(eng, x)) == eng.class_id("SI"),
+                                                        _z3.Select(eng._spec_state.heap["SI._sisig"], _ref(eng, x)) if False else CSIG(S.typeof(_ref(eng, x))),
+                                                        CSIG(S.typeof(_ref(eng, x))))))
+    reg.specfun("issubclass_of", lambda eng, tv, cname: mk_bool(_z3.Or(*[tv.t == eng.class_id(c) for c in eng.table.subclasses(cname)]))
+                if tv.ty.kind == "type" else mk_bool(False))
+
+    # float.__new__ for SI as well
+    old_super_new = reg.specfuns["super_new"]
+
+    def super_new(eng, s, args, kwargs):
+        if eng.cur_class != "SI":
+            return old_super_new(eng, s, args, kwargs)
+        tv, val = args[0], eng.coerce(args[1], REAL)[0].t
+        r = _z3.simplify(eng.A0 + s.nalloc)
+        s.nalloc = s.nalloc + 1
+        s.assume(S.typeof(r) == tv.t)
+        eng.store_field(s, r, "SI", "g_si", SV(REAL, val))
+        return [(s, SV(REF("SI"), r))]
+    reg.specfun("super_new", super_new)
+    reg.specfun("quantity_float", lambda eng, v, s: eng.load_field(s, v.t, "SI" if v.ty.cls == "SI" else "Quantity", "g_si"))
+
+    EXACT = "(typeis_builtin(value, 'float') or typeis_builtin(value, 'int'))"
+    ZEROS = "[0, 0, 0, 0, 0, 0, 0, 0, 0]"
+    reg.contract("SI.__new__", params={"cls": "type", "value": "obj", "unit": "obj"}, returns="ref:SI",
+                 requires=["not isref(value)", "not isnum(value) or isfin(value)"],
+                 raises=[("ValueError", "not %s" % EXACT)],
+                 ensures=["isfresh(result)", "class_of(result) == cls", "result.g_si == val(num(value))"],
+                 modifies=[], for_classes=["SI"], props=C16, axiom_sets=AXS)
+    reg.contract("SI.str_to_sisig", abstract=True, params={"unitstr": "str"}, returns="seq[int]",
+                 ensures=["len(result) == 9", "result == parse_sig(unitstr)"], may_raise=[("ValueError", "True")], modifies=[], pure=True,
+                 note="the unit-string parser is not verified (BOUNDED round-trip sweep)")
+    reg.contract("SI.siunit", abstract=True, params={"div": "obj", "hat": "obj", "dot": "obj"}, returns="str", modifies=[], pure=True,
+                 note="the unit-string printer is not verified (BOUNDED round-trip sweep)")
+    reg.specfun("parse_sig", lambda eng, u: SV(SIGT, PARSE(eng.coerce(u, STR)[0].t)))
+    reg.contract("SI.__init__", params={"value": "obj", "unit": "str"},
+                 raises=[], may_raise=[("ValueError", "unit != ''")], on_raise="any",
+                 ensures=["len(self._sisig) == 9", "implies(unit == '', self._sisig == %s)" % ZEROS,
+                          "implies(unit != '', self._sisig == parse_sig(unit))"],
+                 modifies=["self._sisig", "self._unit"], for_classes=["SI"], props=C16, axiom_sets=AXS)
+
+    # SI(...) by class name: __new__ then __init__, both by contract
+    def construct_si(eng, s, args, kwargs):
+        from pyvc import calls
+        from pyvc.engine import Raise
+        fnew, finit = eng.table.get("SI.__new__"), eng.table.get("SI.__init__")
+        value = args[0]
+        unit = args[1] if len(args) > 1 else SV(STR, _z3.StringVal(""))
+        tv = SV(Ty("type"), _z3.IntVal(eng.class_id("SI")))
+        outs = []
+        for s1, r in calls.call_function(eng, fnew, None, [tv, value, unit], {}, s):
+            if isinstance(r, Raise):
+                outs.append((s1, r))
+                continue
+            for s2, r2 in calls.call_function(eng, finit, r, [value, unit], {}, s1):
+                outs.append((s2, r2 if isinstance(r2, Raise) else r))
+        return outs
+    reg.specfun("construct_SI", construct_si)
+
+    SIWF = "len(self._sisig) == 9"
+    reg.contract("SI._val", params={"si": "real"}, returns="ref:SI", requires=[SIWF], raises=[],
+                 ensures=["isfresh(result)", "typeis(result, 'SI')", "result.g_si == si", "result._sisig == self._sisig", "result._unit == self._unit"],
+                 modifies=[], for_classes=["SI"], props=C16, axiom_sets=AXS)
+    reg.contract("Quantity.asSI", params={}, returns="ref:SI", raises=[],
+                 ensures=["isfresh(result)", "typeis(result, 'SI')", "result.g_si == self.g_si", "result._sisig == class_sig(class_of(self))",
+                          "len(result._sisig) == 9"],
+                 modifies=[], generic_receiver=True, for_classes=["Quantity"], props=C16, axiom_sets=AXS)
+
+
+_load_q4 = load
+
+
+def load(reg):      # noqa: F811
+    """SI products / quotients, as_quantity, and Quantity * / over ALL class pairs (named table entry or generic SI result)."""
+    _load_q4(reg)
+    C16, C17 = ["C16"], ["C17"]
+    AXS = ()
+    SIWF = "len(self._sisig) == 9"
+    SCALAR = "not isref(other) and (typeis_builtin(other, 'float') or typeis_builtin(other, 'int'))"
+    OSI = "isref(other) and typeis(other, 'SI') and len(asref(other, 'SI')._sisig) == 9"
+    # (an instance of one of the 41 concrete classes: the generic base itself is never instantiated)
+    OQ = "isref(other) and instance(other, 'Quantity') and is_quantity_class(class_of(asref(other, 'Quantity')))"
+    # the signature and SI value of the right operand, whichever kind it is
+    OSIG = "ite(%s, asref(other, 'SI')._sisig, class_sig(class_of(asref(other, 'Quantity'))))" % "isref(other) and typeis(other, 'SI')"
+    OVAL = "ite(%s, asref(other, 'SI').g_si, asref(other, 'Quantity').g_si)" % "isref(other) and typeis(other, 'SI')"
+    for op, sym, sgn in (("__mul__", "*", "+"), ("__truediv__", "/", "-")):
+        reg.contract("SI.%s" % op, params={"other": "obj"}, returns="ref:SI",
+                     requires=[SIWF, "(%s and isfin(other)) or (%s) or (%s)" % (SCALAR, OSI, OQ)],
+                     raises=([("ZeroDivisionError", "(%s and val(num(other)) == 0) or (not (%s) and %s == 0)" % (SCALAR, SCALAR, OVAL))]
+                             if op == "__truediv__" else []),
+                     ensures=["isfresh(result)", "typeis(result, 'SI')", "len(result._sisig) == 9",
+                              "implies(%s, result.g_si == self.g_si %s val(num(other)) and result._sisig == self._sisig)" % (SCALAR, sym),
+                              # generic result: SI value = product / quotient, signature = elementwise sum / difference
+                              "implies(not (%s), result.g_si == self.g_si %s %s and forall('i:int', implies(0 <= i and i < 9,"
+                              " result._sisig[i] == self._sisig[i] %s (%s)[i])))" % (SCALAR, sym, OVAL, sgn, OSIG)],
+                     modifies=[], for_classes=["SI"], props=C16, axiom_sets=AXS)
+    # a generic SI value converts to a named quantity exactly when the signatures match
+    reg.contract("SI.as_quantity", params={"quantity": "type"}, returns="ref:Quantity",
+                 # (any class object except the generic base Quantity itself, which has no unit table)
+                 requires=[SIWF, "is_quantity_class(quantity) or not is_quantity_class_or_base(quantity)"],
+                 raises=[("TypeError", "not is_quantity_class_or_base(quantity)"),
+                         ("ValueError", "is_quantity_class_or_base(quantity) and class_sig(quantity) != self._sisig")],
+                 ensures=["isfresh(result)", "class_of(result) == quantity", "result.g_si == self.g_si"],
+                 modifies=[], for_classes=["SI"], props=C16, axiom_sets=AXS)
+    import z3 as _z3
+    from pyvc.engine import mk_bool as _mkb
+    reg.specfun("is_quantity_class_or_base", lambda eng, tv: _mkb(_z3.Or(*[tv.t == eng.class_id(c) for c in eng.table.subclasses("Quantity")])))
+
+    # Quantity * / over every class pair: table entry -> named result (above); no entry -> generic SI result
+    G = dict(generic_receiver=True, for_classes=["Quantity"], modifies=[], axiom_sets=AXS)
+    NEW = ["sametype(result, self)", "result._unit == self._unit", "isfresh(result)"]
+    for op, sym, sgn, has, cls in (("__mul__", "*", "+", "has_mul", "mul_class"), ("__truediv__", "/", "-", "has_div", "div_class")):
+        NAMED = "(%s and %s(self, other))" % (OQ, has)
+        GENERIC = "((%s and not %s(self, other)) or (%s))" % (OQ, has, OSI)
+        reg.contract("Quantity.%s" % op, params={"other": "obj"}, returns="obj",
+                     requires=["(%s and isfin(other)) or (%s) or (%s)" % (SCALAR, OQ, OSI)],
+                     raises=([("ZeroDivisionError", "(%s and val(num(other)) == 0) or (not (%s) and %s == 0)" % (SCALAR, SCALAR, OVAL))]
+                             if op == "__truediv__" else []),
+                     ensures=["isref(result)",
+                              "implies(%s, sametype(result, self) and asref(result, 'Quantity')._unit == self._unit"
+                              " and asref(result, 'Quantity').g_si == self.g_si %s val(num(other)))" % (SCALAR, sym),
+                              "implies(%s, class_of(asref(result, 'Quantity')) == %s(self, other)"
+                              " and asref(result, 'Quantity').g_si == self.g_si %s %s)" % (NAMED, cls, sym, OVAL),
+                              # no table entry: a generic SI value whose signature is the sum / difference of the operands' signatures
+                              "implies(%s, typeis(result, 'SI') and asref(result, 'SI').g_si == self.g_si %s %s"
+                              " and forall('i:int', implies(0 <= i and i < 9, asref(result, 'SI')._sisig[i] =="
+                              " class_sig(class_of(self))[i] %s (%s)[i])))" % (GENERIC, sym, OVAL, sgn, OSIG)],
+                     props=C16 + C17, **G)
